@@ -64,10 +64,11 @@ REQUIRED_REACH = ["tri-template-red", "tri-template-blue1", "tri-template-blue2"
                   "tri-closure-propagated-depth>=2", "tet-worklist-rounds>=2", "tet-worklist-rounds>=3",
                   "exhaustive-level1-subsets", "exhaustive-level2-subsets", "exact-mode-steps",
                   "tolerance-mode-steps", "history-steps>=8", "history-mixed-adaptive-uniform",
-                  "uniform-step-in-history", "line-adaptive-steps", "second-order-adaptive-steps"]
+                  "uniform-step-in-history", "line-adaptive-steps", "second-order-adaptive-steps",
+                  "parent-reused-after-adaptive"]
 ASSUMPTIONS = [
     "input meshes are conforming, non-degenerate and straight-sided (generators; quality floor 2^-10)",
-    "marked sets are sets of valid cell indices without repetitions, passed as ndarray or list",
+    "marked sets are sets of valid cell indices, passed as ndarray or list in any order, possibly listing a cell twice",
     "exact mode: all coordinates are multiples of 2^-45 with |x| <= 64, so the library's midpoints are exact; "
     "otherwise tolerance 1e-12*h + 16 ulp(max|x|) (steps counted under reach tolerance-mode-steps)",
     "named boundaries are not mentioned by the statement; they are judged as part of 'valid mesh': either dropped "
@@ -491,7 +492,12 @@ def marked_variant(rng, marked, which=None):
     """The same set in another order / container / dtype."""
     m = np.array(marked, dtype=np.int64)
     m = m[rng.permutation(m.size)]
-    which = int(rng.integers(0, 7)) if which is None else which
+    which = int(rng.integers(0, 9)) if which is None else which
+    if which >= 7 and m.size:
+        # the same *set* with some cells listed more than once (e.g. f2t[0, facets] of several facets of one cell)
+        rep = np.concatenate([m, m[rng.integers(0, m.size, size=int(rng.integers(1, m.size + 2)))]])
+        rep = rep[rng.permutation(rep.size)]
+        return (rep if which == 7 else [int(i) for i in rep]), ("ndarray-with-repeats" if which == 7 else "list-with-repeats")
     if which == 0:
         return m.astype(np.int32), "int32-permuted"
     if which == 1:
@@ -824,6 +830,13 @@ def one_step(ctx, mesh, marked, desc, rng, step=0, order_check=False, form=None,
     orc = check_step(ctx, par, child, np.asarray(marked, dtype=np.int64), records, desc, step=step, light=light)
     if order_check and marked.size >= 1:
         check_order_independence(ctx, mesh, marked, child, rng, desc)
+    if order_check and marked.size >= 1 and mesh.t.shape[1] <= 200 and type(mesh).__name__ != "MeshLine1":
+        # histories branch: the same parent object (facet tables in use since the snapshot) is refined again,
+        # uniformly, after the adaptive call; judged against the snapshot taken before both calls
+        child_u, rec_u = call_refined(mesh, 1)
+        check_step(ctx, par, child_u, None, rec_u, dict(desc, branch="uniform-after-adaptive-on-same-parent"),
+                   step=step, light=True)
+        ctx.reached("parent-reused-after-adaptive")
     return child if orc is not None else None
 
 
